@@ -258,6 +258,11 @@ class Interp:
         self.spawned = []         # (block, arg, sid)
         self.handler_entries = {}  # site of except construct -> count
         self.error = None         # unhandled SqfError of the current script
+        self.cur_script = 0
+        self.script_of_site = {}
+        self.handled = []
+        self.try_depth = 0
+        self.decline_fault_in_try = False
 
     # --- variables
     def lookup(self, name):
@@ -328,11 +333,13 @@ class Interp:
         if k == 'trace':
             v = self.ev(s[2])
             self.trace.append((s[1], sqf_repr([s[1], v])))
+            self.script_of_site[s[1]] = self.cur_script
             return None
         if k == 'tracev':
             v = self.ev(s[2])
             self.assign('_vt', v)
             self.trace.append((s[1], sqf_repr([s[1], 'NIL' if v is None else v])))
+            self.script_of_site[s[1]] = self.cur_script
             return None
         if k == 'assign':
             self.assign(s[1], self.ev(s[2]), s[3])
@@ -439,6 +446,8 @@ class Interp:
         if k == 'expr':
             return self.ev(s[1])
         if k == 'fault':
+            if self.try_depth > 0 and self.decline_fault_in_try:
+                raise ModelDeclines('fault dynamically inside try (recorded defect, avoided)')
             raise SqfError(s[1], s[2])
         if k == 'with':
             v, _ = self.run_block(s[2], ns=s[1].lower())
@@ -526,11 +535,19 @@ class Interp:
         if k == 'try':
             depth = len(self.frames)
             try:
-                v, _ = self.run_block(e[1])
+                self.try_depth += 1
+                try:
+                    v, _ = self.run_block(e[1])
+                finally:
+                    self.try_depth -= 1
                 return v
             except Throw as t:
                 del self.frames[depth:]
-                v, _ = self.run_block(e[2], {'_exception': t.value})
+                self.try_depth += 1   # the catch code runs in the try frame, which still carries the catch behaviour
+                try:
+                    v, _ = self.run_block(e[2], {'_exception': t.value})
+                finally:
+                    self.try_depth -= 1
                 return v
         if k == 'except':
             depth = len(self.frames)
@@ -541,7 +558,6 @@ class Interp:
                 del self.frames[depth:]
                 if isinstance(err, Throw):
                     raise ModelDeclines('throw into except__')
-                self.handled = getattr(self, 'handled', [])
                 self.handled.append(err)
                 v, _ = self.run_block(e[2], {'_exception': ('ERR', err.kind)})
                 return v
@@ -1039,3 +1055,277 @@ class GenHostile(Gen):
             self.features.add('extra-values')
             return [('expr', self.anyval(ctx)), ('expr', ('arr', [self.num(ctx), self.num(ctx)]))]
         return Gen.stmt(self, ctx)
+
+
+# ----------------------------------------------------------------------------------------------
+# C04: one injected fault, except__ handlers
+
+FAULT_SNIPPETS = {
+    'select_oob': '[1] select (5 + %d)',
+    'type_mismatch': '%d + "a"',
+    'dummy_op': 'forceRespawn %d',
+    'unknown_unary': 'toUpper %d',
+    'count_nonbool': '{%d} count [1]',
+    'throw_uncaught': 'throw "boom%d"',
+    'select_neg': '[1, 2] select (-%d)',
+    'set_neg': '[1, 2] set [-%d, 0]',
+    'foreach_nonarray': '{ %d } forEach 5',
+}
+
+
+def _emit_fault(s):
+    return FAULT_SNIPPETS[s[1]] % s[2]
+
+
+_old_emit_stmt = emit_stmt
+
+
+def emit_stmt(s):  # noqa: F811  (extends the printer with the C04 statement kinds)
+    if s[0] == 'fault':
+        return _emit_fault(s)
+    if s[0] == 'excprobe':
+        return 'diag_log ("EXC|%d|" + str _exception)' % s[1]
+    return _old_emit_stmt(s)
+
+
+_old_exec = Interp.exec_stmt
+
+
+def _exec_stmt(self, s):
+    if s[0] == 'excprobe':
+        self.tick()
+        self.trace.append((s[1], 'EXC|%d|' % s[1]))
+        self.script_of_site[s[1]] = self.cur_script
+        return None
+    return _old_exec(self, s)
+
+
+Interp.exec_stmt = _exec_stmt
+
+
+def walk_blocks(block, path, out):
+    """collects (block, path) for every statement list; path = list of (kind, parent_list, index) of enclosing statements"""
+    out.append((block, list(path)))
+    for i, s in enumerate(block):
+        _walk_stmt(s, path + [(s[0], block, i)], out)
+
+
+def _walk_stmt(s, path, out):
+    k = s[0]
+    if k in ('trace', 'tracev'):
+        _walk_expr(s[2], path, out)
+    elif k == 'assign':
+        _walk_expr(s[2], path, out)
+    elif k == 'exitwith':
+        _walk_expr(s[1], path, out)
+        walk_blocks(s[2], path, out)
+    elif k == 'while':
+        walk_blocks(s[1], path, out)
+        walk_blocks(s[2], path, out)
+    elif k == 'for':
+        walk_blocks(s[5], path, out)
+    elif k == 'foreach':
+        walk_blocks(s[1], path, out)
+        _walk_expr(s[2], path, out)
+    elif k in ('throw', 'expr'):
+        _walk_expr(s[1], path, out)
+    elif k == 'breakout':
+        if s[2] is not None:
+            _walk_expr(s[2], path, out)
+    elif k == 'with':
+        walk_blocks(s[2], path, out)
+    elif k == 'setvar':
+        _walk_expr(s[3], path, out)
+    elif k == 'spawn':
+        walk_blocks(s[1], path, out)
+
+
+def _walk_expr(e, path, out):
+    k = e[0]
+    if k == 'arr':
+        for x in e[1]:
+            _walk_expr(x, path, out)
+    elif k == 'bin':
+        _walk_expr(e[2], path, out)
+        _walk_expr(e[3], path, out)
+    elif k == 'un':
+        _walk_expr(e[2], path, out)
+    elif k in ('land', 'lor'):
+        _walk_expr(e[1], path, out)
+        walk_blocks(e[2], path, out)
+    elif k == 'call':
+        walk_blocks(e[1], path, out)
+        if e[2] is not None:
+            _walk_expr(e[2], path, out)
+    elif k == 'ifte':
+        _walk_expr(e[1], path, out)
+        walk_blocks(e[2], path, out)
+        walk_blocks(e[3], path, out)
+    elif k == 'if':
+        _walk_expr(e[1], path, out)
+        walk_blocks(e[2], path, out)
+    elif k == 'switch':
+        _walk_expr(e[1], path, out)
+        for cases, blk in e[2]:
+            walk_blocks(blk, path, out)
+        if e[3] is not None:
+            walk_blocks(e[3], path, out)
+    elif k in ('try', 'except'):
+        walk_blocks(e[1], path, out)
+        walk_blocks(e[2], path, out)
+    elif k == 'countc':
+        walk_blocks(e[1], path, out)
+        _walk_expr(e[2], path, out)
+    elif k in ('selectc', 'apply', 'findif'):
+        _walk_expr(e[1], path, out)
+        walk_blocks(e[2], path, out)
+
+
+STMT_KINDS = {'trace', 'tracev', 'assign', 'private', 'params', 'exitwith', 'while', 'for', 'foreach', 'scopename', 'breakout', 'throw', 'expr', 'fault',
+              'with', 'setvar', 'spawn', 'sleep', 'excprobe'}
+
+
+class GenFault(Gen):
+    POSITIONS = ['straight', 'straight', 'nested', 'loopcond', 'iter', 'last', 'spawn', 'exitwith', 'in-try']
+
+    def __init__(self, rng, max_depth=3, max_stmts=25, avoid=()):
+        Gen.__init__(self, rng, max_depth, max_stmts, avoid)
+        self.fault = None
+        self.position = None
+        self.handlers = 0
+
+    def handler(self, ctx):
+        h = [('trace', self.next_site(), ('num', 0)), ('excprobe', self.next_site())]
+        h += self.block(ctx, room=self.rng.randint(0, 2))
+        h.append(('expr', self.anyval(ctx)))
+        return h
+
+    def program_with_fault(self, kind, position, handled):
+        r = self.rng
+        base = self.program()
+        npre = 10
+        body = base[npre:]
+        site = self.next_site()
+        fault = ('fault', kind, site)
+        self.fault = fault
+        self.position = position
+        ctx = {'depth': 1, 'first': False, 'scopes': [], 'outer': None}
+        blocks = []
+        walk_blocks(body, [], blocks)
+        placed = False
+        if position == 'last':
+            body.append(fault)
+            target_path = []
+            placed = True
+        elif position == 'spawn':
+            blk = [('trace', self.next_site(), ('num', 1)), fault, ('trace', self.next_site(), ('num', 2))]
+            if handled:
+                blk = [('tracev', self.next_site(), ('except', blk, self.handler(ctx)))] + [('trace', self.next_site(), ('num', 3))]
+                self.handlers += 1
+            blk = [st for st in base[:npre]] + blk   # a spawned script sees none of the starter's locals: it gets its own
+            k = r.randint(0, len(body))
+            body.insert(k, ('spawn', blk, None, 1))
+            return base[:npre] + body
+        else:
+            want = {'straight': lambda p: len(p) == 0, 'nested': lambda p: len(p) >= 1,
+                    'loopcond': lambda p: False, 'iter': lambda p: False, 'exitwith': lambda p: bool(p) and p[-1][0] == 'exitwith',
+                    'in-try': lambda p: False}[position]
+            cands = [(b, p) for b, p in blocks if want(p)]
+            if position == 'loopcond':
+                cands = []
+                for b, p in blocks:
+                    for i, s in enumerate(b):
+                        if s[0] == 'while':
+                            cands.append((s[1], p + [('while', b, i)]))
+            if position == 'iter':
+                cands = []
+                for b, p in blocks:
+                    if p and p[-1][0] in ('tracev', 'assign', 'expr'):
+                        st = p[-1][1][p[-1][2]]
+                        if _is_iter_body(st, b):
+                            cands.append((b, p))
+            if position == 'in-try':
+                cands = []
+                for b, p in blocks:
+                    if p:
+                        st = p[-1][1][p[-1][2]]
+                        if _is_try_body(st, b):
+                            cands.append((b, p))
+            if cands:
+                b, target_path = r.choice(cands)
+                if position == 'loopcond':
+                    k = r.randint(0, max(0, len(b) - 1))
+                elif position == 'iter':
+                    k = r.randint(0, max(0, len(b) - 1))   # never after the result expression
+                else:
+                    k = r.randint(0, len(b))
+                b.insert(k, fault)
+                placed = True
+        if not placed:
+            self.position = 'straight'
+            k = r.randint(0, len(body))
+            body.insert(k, fault)
+            target_path = []
+        if handled:
+            # wrap an enclosing traced construct, or the whole body, in  { ... } except__ { handler }
+            tv = [(kind_, lst, i) for kind_, lst, i in target_path if kind_ == 'tracev']
+            nested = handled == 'nested'
+            if tv and r.random() < 0.7:
+                kind_, lst, i = r.choice(tv)
+                st = lst[i]
+                lst[i] = ('tracev', st[1], ('except', [('expr', st[2])], self.handler(ctx)))
+                self.handlers += 1
+                if nested:
+                    body = [('tracev', self.next_site(), ('except', body, self.handler(ctx)))]
+                    self.handlers += 1
+            else:
+                body = [('tracev', self.next_site(), ('except', body, self.handler(ctx)))]
+                self.handlers += 1
+                if nested:
+                    body = [('tracev', self.next_site(), ('except', body, self.handler(ctx)))]
+                    self.handlers += 1
+            body.append(('trace', self.next_site(), ('str', 'after')))
+        return base[:npre] + body
+
+
+def _is_iter_body(st, b):
+    def find(n):
+        if isinstance(n, tuple):
+            if n[0] in ('selectc', 'apply', 'findif') and n[2] is b:
+                return True
+            if n[0] == 'countc' and n[1] is b:
+                return True
+            return any(find(x) for x in n[1:])
+        if isinstance(n, list) and n is not b:
+            return any(find(x) for x in n)
+        return False
+    return find(st)
+
+
+def _is_try_body(st, b):
+    def find(n):
+        if isinstance(n, tuple):
+            if n[0] == 'try' and n[1] is b:
+                return True
+            return any(find(x) for x in n[1:])
+        if isinstance(n, list) and n is not b:
+            return any(find(x) for x in n)
+        return False
+    return find(st)
+
+
+def run_program(block, max_steps=200000, decline_fault_in_try=False):
+    """main script, then every spawned script (each with an empty local chain); returns (interp, outcomes)
+    outcomes: list of (script id, ('ok', v) | ('error', SqfError)) in start order; script 0 is the main script"""
+    it = Interp(max_steps)
+    it.decline_fault_in_try = decline_fault_in_try
+    outs = []
+    it.cur_script = 0
+    outs.append((0, it.run_script(block)))
+    done = 0
+    while done < len(it.spawned):
+        blk, arg, sid = it.spawned[done]
+        done += 1
+        it.cur_script = sid
+        outs.append((sid, it.run_script(blk, {'_this': arg, '_thisscript': 'SCRIPT'})))
+    return it, outs
